@@ -364,7 +364,8 @@ def invalid_cases(draw):
             bad = [math.nextafter(w, math.inf), w, s, n]
         else:
             bad = [w, e, math.nextafter(s, math.inf), s]
-    func = draw(st.sampled_from(["check_region", "inside", "scatter_points", "grid_coordinates", "block_split", "grid"]))
+    func = draw(st.sampled_from(["check_region", "inside", "scatter_points", "grid_coordinates", "block_split", "grid", "scatter", "rolling_window_shape", "rolling_window_spacing",
+                                 "block_reduce", "block_mean", "project_region", "checkerboard_scatter"]))
     case = dict(kind=kind, region=bad, func=func, good=region)
     if kind in ("W>E", "S>N") and draw(st.integers(0, 2)) == 0:
         # whole-number bounds handed over as one array of a narrow integer type (pixel or degree bounds read from a header)
@@ -414,6 +415,13 @@ def check_invalid(case, ctx):
         "grid_coordinates": lambda: vd.grid_coordinates(bad, shape=(3, 4)),
         "block_split": lambda: vd.block_split(pts, shape=(2, 2), region=bad),
         "grid": lambda: _Flat().grid(region=bad, shape=(3, 4)),
+        "scatter": lambda: _Flat().scatter(region=bad, size=5),
+        "rolling_window_shape": lambda: vd.rolling_window(pts, size=min(e - w, n - s) / 4, shape=(2, 2), region=bad),
+        "rolling_window_spacing": lambda: vd.rolling_window(pts, size=min(e - w, n - s) / 4, spacing=min(e - w, n - s) / 4, region=bad),
+        "block_reduce": lambda: vd.BlockReduce(np.mean, shape=(2, 2), region=bad).filter(pts, np.ones(3)),
+        "block_mean": lambda: vd.BlockMean(shape=(2, 2), region=bad).filter(pts, np.ones(3)),
+        "project_region": lambda: vd.project_region(bad, lambda x, y: (x, y)),
+        "checkerboard_scatter": lambda: vd.synthetic.CheckerBoard(region=bad).scatter(size=5),
     }
     try:
         result = calls[func]()
